@@ -32,11 +32,11 @@ PROP = {
             "shards": {"quick": 8, "thorough": 16},
             "watchdog": {"quick": 600, "thorough": 3000},
             "floors": {
-                "quick": {"cases": 4000, "oracle_conf_sound_evals": 13000, "oracle_spend_sound_evals": 18000,
-                          "oracle_conf_complete_evals": 180000, "oracle_spend_complete_evals": 250000,
-                          "oracle_hint_evals": 390000, "negative_conf_events": 1500, "spend_reorg_events": 2000,
-                          "historical_delivered": 22000, "disconnects": 32000,
-                          "histories_with_limit_depth_reorg": 700},
+                "quick": {"cases": 3000, "oracle_conf_sound_evals": 10000, "oracle_spend_sound_evals": 13500,
+                          "oracle_conf_complete_evals": 135000, "oracle_spend_complete_evals": 190000,
+                          "oracle_hint_evals": 290000, "negative_conf_events": 1100, "spend_reorg_events": 1500,
+                          "historical_delivered": 16500, "disconnects": 24000,
+                          "histories_with_limit_depth_reorg": 520},
                 "thorough": {"cases": 100000, "oracle_conf_sound_evals": 320000, "oracle_spend_sound_evals": 450000,
                              "oracle_conf_complete_evals": 4500000, "oracle_spend_complete_evals": 6000000,
                              "oracle_hint_evals": 9500000, "negative_conf_events": 37000,
